@@ -1,5 +1,5 @@
 (* props/C01.v -- C01: write-then-read returns the same graph (ids, properties, missing masks). *)
-From Geff Require Import Base Dtype Vlen VlenLemmas Tree Validate Write Read RoundTrip WriteLemmas ReadLemmas ValidateLayout C01Lemmas WriteTotal.
+From Geff Require Import Base Dtype Vlen VlenLemmas Tree Validate Write Read RoundTrip WriteLemmas ReadLemmas ValidateLayout C01Lemmas WriteTotal ModelDomain.
 Open Scope string_scope.
 Open Scope list_scope.
 
@@ -10,15 +10,18 @@ Open Scope list_scope.
    properties) of any size:  write_arrays succeeds, the result passes structural validation, and reading it
    back returns exactly the ids (values, order, dtype) and, for every property, the same dtype (float16
    upcast to float32), shape, missing mask and ALL values -- together with the metadata that was stored. *)
+(* in_domain (ModelDomain.v): every property name is one usable zarr path segment and no property is a bytes array -- the inputs
+   on which the tree model is faithful to the code (on the others the code refuses the write or nests groups; the correspondence
+   and the oracle cover them).  The premise is not used by the proof; it restricts the claim to where the model was tied. *)
 Theorem C01_roundtrip : forall k pre g md md' n e ov,
-  clean k pre -> wf_input g md n e -> final_metadata g md = Ok md' ->
+  clean k pre -> wf_input g md n e -> in_domain g md -> final_metadata g md = Ok md' ->
   exists tr post,
     write_arrays k g md true ov (init pre) = (mkst (Some post) tr, Ok tt) /\
     validate_structure k (Some post) = Ok tt /\
     read_to_memory k (Some post) true None None
     = Ok (mkmg md' (w_nids g) (w_eids g)
                (up_props (backfill (w_nids g) md (w_nprops g))) (up_props (w_eprops g))).
-Proof. exact write_then_read. Qed.
+Proof. intros k pre g md md' n e ov Hc Hwf _ Hfm. exact (write_then_read k pre g md md' n e ov Hc Hwf Hfm). Qed.
 Print Assumptions C01_roundtrip.
 
 (* THE WRITE SUCCEEDS, without assuming it.  The statement above carries `final_metadata g md = Ok md'` and, inside wf_input,
@@ -45,7 +48,7 @@ Proof. exact final_metadata_total. Qed.
 Print Assumptions C01_final_metadata_total.
 
 Theorem C01_roundtrip_total : forall k pre g md n e ov,
-  clean k pre -> wf_input g md n e -> axes_have_data g md ->
+  clean k pre -> wf_input g md n e -> in_domain g md -> axes_have_data g md ->
   exists md' tr post,
     final_metadata g md = Ok md' /\
     write_arrays k g md true ov (init pre) = (mkst (Some post) tr, Ok tt) /\
@@ -53,7 +56,7 @@ Theorem C01_roundtrip_total : forall k pre g md n e ov,
     read_to_memory k (Some post) true None None
     = Ok (mkmg md' (w_nids g) (w_eids g)
                (up_props (backfill (w_nids g) md (w_nprops g))) (up_props (w_eprops g))).
-Proof. exact write_then_read_total. Qed.
+Proof. intros k pre g md n e ov Hc Hwf _ Hd. exact (write_then_read_total k pre g md n e ov Hc Hwf Hd). Qed.
 Print Assumptions C01_roundtrip_total.
 
 (* what is stored is the documented layout: nodes/ids, edges/ids, props/<name>/{values,missing,data}, attrs["geff"] *)
@@ -129,6 +132,7 @@ Print Assumptions C01_empty_vlen_refuted.
 (* non-vacuity of the total statement: the example graph's axis property holds its values; a float16 var-length property is
    storable; a float16 element beside a float32 element, an empty name, mixed ranks and an empty var-length property are not *)
 Example C01_total_nonvacuous :
+  in_domain ex_g ex_md /\
   axes_have_data ex_g ex_md /\
   storable "v" (mkprop (PVlen [Build_varr DF16 [1%nat] [7]%Z; Build_varr DF16 [0%nat] []]) None) /\
   ~ storable "v" (mkprop (PVlen [Build_varr DF16 [1%nat] [7]%Z; Build_varr DF32 [0%nat] []]) None) /\
@@ -136,6 +140,9 @@ Example C01_total_nonvacuous :
   ~ storable "v" (mkprop (PVlen [Build_varr DI8 [1%nat] [7]%Z; Build_varr DI8 [1%nat; 1%nat] [8]%Z]) None) /\
   ~ storable "v" (mkprop (PVlen []) None).
 Proof.
+  split.
+  { split; intros ps Hps; vm_compute in Hps; inversion Hps; subst ps; clear Hps;
+      repeat constructor; cbn; try discriminate; repeat constructor; discriminate. }
   split.
   - intros axes ps ax a Hax Hps Hin Hinp. vm_compute in Hax, Hps. inversion Hax; subst axes; clear Hax.
     inversion Hps; subst ps; clear Hps. destruct Hin as [<-|[]]. cbn [ax_name] in Hinp.
